@@ -366,7 +366,9 @@ class PyCParser(ParserInterface):
             c_prog = cfile.read()
 
         # apply preprocessing steps
-        preprocessed = PyCParser.add_attr_x(c_prog)
+        # the #define is a preprocessor directive: only usable with cpp
+        preprocessed = PyCParser.add_attr_x(c_prog) \
+            if kwargs.get('use_cpp', False) else c_prog
         # convert to byte string
         prog_bytes = str.encode(preprocessed)
 
